@@ -89,3 +89,10 @@ func init() {
 	register("C10", ruleEntryPoints, ruleGuards)
 	register("C07", ruleEntryPoints)
 }
+
+func init() {
+	register("C02", ruleDataMatrixEncoder)
+	register("C10", ruleDataMatrixEncoder)
+	register("C12", ruleDataMatrixEncoder)
+	register("C13", ruleDataMatrixEncoder)
+}
